@@ -166,6 +166,18 @@ func (s *Sim) craftBundle(a, mut, c int, r basics.Round, p uint64) {
 			return
 		}
 		pick := s.seenVotes[c%len(s.seenVotes)]
+		if c%4 != 0 {
+			// prefer material that is fresh for the targets: current round, current or previous period
+			var fresh []UVote
+			for _, v := range s.seenVotes {
+				if v.R.Round == r && v.R.Period+1 >= p && v.R.Step != stepPropose {
+					fresh = append(fresh, v)
+				}
+			}
+			if len(fresh) > 0 {
+				pick = fresh[(c/4)%len(fresh)]
+			}
+		}
 		if pick.R.Step == stepPropose {
 			return
 		}
@@ -183,7 +195,7 @@ func (s *Sim) craftBundle(a, mut, c int, r basics.Round, p uint64) {
 	}
 	adv := accts[s.cfg.AdvAccts[c%len(s.cfg.AdvAccts)]]
 	what := ""
-	switch mut % 14 {
+	switch mut % 16 {
 	case 0:
 		what = "as-is"
 	case 1: // duplicated voter (re-using its weight)
@@ -288,6 +300,60 @@ func (s *Sim) craftBundle(a, mut, c int, r basics.Round, p uint64) {
 			}
 		}
 		what = "splice-other-step"
+	case 14, 15: // a sub-quorum of honest votes topped up by counting ONE adversary key twice: once as a
+		// plain voter and once as an equivocation pair (a sender must be distinct across BOTH lists)
+		vals := append([]PValue(nil), s.values[base.Round]...)
+		if base.Step >= stepNext {
+			vals = append(vals, PValue{})
+		}
+		var other *PValue
+		for i := range vals {
+			if vals[i] != base.Proposal {
+				other = &vals[i]
+				break
+			}
+		}
+		if other == nil || (base.Proposal.IsBottom() && base.Step < stepNext) || (other.IsBottom() && base.Step < stepNext) {
+			return
+		}
+		u0 := s.craftVote(adv, base.Round, base.Period, base.Step, base.Proposal)
+		u1 := s.craftVote(adv, base.Round, base.Period, base.Step, *other)
+		if u0 == nil || u1 == nil {
+			return
+		}
+		aw := s.refWeight(*u0)
+		if aw == 0 {
+			return
+		}
+		thr := stepThreshold(base.Step)
+		// keep honest voters (heaviest first is irrelevant: keep while the sum stays below thr - aw)
+		var kept []VoteAuth
+		var sum uint64
+		for _, v := range base.Votes {
+			if v.Sender == adv.Addr {
+				continue
+			}
+			w := s.refWeight(UVote{R: RawVote{Sender: v.Sender, Round: base.Round, Period: base.Period, Step: base.Step, Proposal: base.Proposal}, Cred: v.Cred, Sig: v.Sig})
+			if w == 0 || sum+w+aw >= thr {
+				continue
+			}
+			kept = append(kept, v)
+			sum += w
+		}
+		if sum+2*aw < thr {
+			s.stat("craft_overlap_not_enough_weight", 1)
+			if mut%16 == 15 {
+				return
+			}
+		}
+		s.emitted[voteSha(*u0)] = true
+		s.emitted[voteSha(*u1)] = true
+		base.Votes = append(kept, VoteAuth{Sender: adv.Addr, Cred: u0.Cred, Sig: u0.Sig})
+		ea := EqVoteAuth{Sender: adv.Addr, Cred: u0.Cred}
+		ea.Sigs[0], ea.Sigs[1] = u0.Sig, u1.Sig
+		ea.Proposals[0], ea.Proposals[1] = base.Proposal, *other
+		base.EquivocationVotes = []EqVoteAuth{ea}
+		what = "voter-also-eq-pair"
 	}
 	data := protocol.EncodeReflect(&base)
 	_, err := RefBundleCheck(s, base)
